@@ -1,15 +1,20 @@
 (* C20 -- source tie: HopfieldNet._rule as translated from hopfield_net.py on this run (gen/GenFuns.v) is the
-   hand-written hopfield_rule of Model/Hopfield.v.  (HopfieldNet.train is not translated: see
-   notes/agents/TRANSLATOR.md.)  The field theorem restated on the source-derived rule. *)
+   hand-written hopfield_rule of Model/Hopfield.v, and HopfieldNet.train (the triple loop with raising element
+   accesses) is train_loop, hence `train`.  The field theorem and the Hebbian theorem restated on the source-derived
+   definitions. *)
 From Coq Require Import ZArith List.
 From CPL Require Import Model.Base Model.Rules Model.Engine Model.Evolve1D Model.Hopfield Proofs.HopfieldProofs.
 From CPL Require Import gen.GenFuns_C20 GenProps.GenFunsEquivC20.
 Import ListNotations.
 Local Open Scope Z_scope.
 
-Theorem C20_source_translation_agrees : forall (W : list (list Z)) (r : nat) (n : list Z) (c : nat),
-  src_hopfield_rule W (Z.of_nat r) n (Z.of_nat c) = hopfield_rule W r n c.
-Proof. exact src_hopfield_rule_agrees. Qed.
+Theorem C20_source_translation_agrees :
+  (forall (W : list (list Z)) (r : nat) (n : list Z) (c : nat),
+     src_hopfield_rule W (Z.of_nat r) n (Z.of_nat c) = hopfield_rule W r n c) /\
+  (forall P : list (list Z), src_hopfield_train P = train P).
+Proof.
+  split; [exact src_hopfield_rule_agrees|]. intros P. rewrite src_hopfield_train_agrees. apply train_loop_eq.
+Qed.
 
 (* C20_hopfield_field on the source-derived rule: on a ring of N = 2r+1 cells with an N x N weight matrix, the rule
    applied to the ring neighbourhood of cell c returns the sign (>= 0 -> 1, else -1) of the weighted input of c from
@@ -18,6 +23,15 @@ Theorem C20_src_hopfield_field : forall r W s c, let N := (2 * r + 1)%nat in
   shape N W -> length s = N -> (c < N)%nat ->
   src_hopfield_rule W (Z.of_nat r) (ring_nbhd s c r) (Z.of_nat c) = Ok (hop (field_excl W s c)).
 Proof.
-  intros r W s c N Hs Hl Hc. rewrite C20_source_translation_agrees. unfold hopfield_rule.
+  intros r W s c N Hs Hl Hc. rewrite (proj1 C20_source_translation_agrees). unfold hopfield_rule.
   rewrite (hopfield_field r W s c Hs Hl Hc). reflexivity.
 Qed.
+
+(* C20_train_hebbian on the source-derived train: for patterns of one length N the call succeeds and the matrix is
+   N x N, symmetric, zero on the diagonal, and off the diagonal the Hebbian sum over the patterns *)
+Theorem C20_src_train_hebbian : forall N p0 P, Forall (fun p => length p = N) (p0 :: P) ->
+  exists W, src_hopfield_train (p0 :: P) = Ok W /\ shape N W /\
+    (forall i j, (i < N)%nat -> (j < N)%nat ->
+       mget W i j = if (i =? j)%nat then 0 else hebb (p0 :: P) i j) /\
+    wsym N W /\ wdiag N W.
+Proof. intros N p0 P H. rewrite (proj2 C20_source_translation_agrees). now apply train_hebbian. Qed.
